@@ -9,6 +9,8 @@ import ShapeVerif.Props.C01
 import ShapeVerif.Props.C02
 import ShapeVerif.Props.C03
 import ShapeVerif.Props.C07
+import ShapeVerif.Props.C08
+import ShapeVerif.Props.C09
 namespace ShapeVerif
 open Shape
 
@@ -143,5 +145,66 @@ strings, in escapes inside member names that denote the same name) get the same 
 theorem same_document_same_result {t t' : List Char} {d : Doc} (h : Reads t d) (h' : Reads t' d) :
     fromStr t = fromStr t' := by
   rw [fromStr_of_reads h, fromStr_of_reads h']
+
+theorem inferDoc_of_reads {t : List Char} {d : Doc} (h : Reads t d) {s : Shape} (hs : fromStr t = .ok s) :
+    inferDoc d = .ok s := by
+  rw [fromStr_of_reads h] at hs
+  cases hi : inferDoc d with
+  | ok v => rw [hi] at hs; simp only [liftS, Outcome.ok.injEq] at hs; rw [hs]
+  | error e => rw [hi] at hs; simp [liftS] at hs
+
+theorem fromSources_pair_reads {t u : List Char} {d e : Doc} (ht : Reads t d) (hu : Reads u e) (s : Shape) :
+    fromSources [t, u] = .ok s ↔ fromSourcesDoc [d, e] = .ok s :=
+  fromSources_reads [(t, d), (u, e)] (by
+    intro p hp
+    simp only [List.mem_cons, List.not_mem_nil, or_false] at hp
+    rcases hp with rfl | rfl
+    · exact ht
+    · exact hu) s
+
+/-- **C08 on texts**: `from_sources([t, t]) == from_str(t)` -/
+theorem sources_idem_text {t : List Char} {d : Doc} (h : Reads t d) {s : Shape} (hs : fromStr t = .ok s) :
+    fromSources [t, t] = .ok s :=
+  (fromSources_pair_reads h h s).2 (sources_idem (inferDoc_of_reads h hs))
+
+/-- **C08 on texts**: merging with a text that reads as `null`, on either side, gives exactly the
+optional form -/
+theorem sources_null_text {t tn : List Char} {d : Doc} (h : Reads t d) (hn : Reads tn .null) {s : Shape}
+    (hs : fromStr t = .ok s) :
+    fromSources [t, tn] = .ok s.asOptional ∧ fromSources [tn, t] = .ok s.asOptional := by
+  have := sources_null (inferDoc_of_reads h hs)
+  exact ⟨(fromSources_pair_reads h hn _).2 this.1, (fromSources_pair_reads hn h _).2 this.2⟩
+
+/-- **C08 on texts**: both orders of two source texts admit the same documents -/
+theorem sources_comm_text {t u : List Char} {d e : Doc} (ht : Reads t d) (hu : Reads u e) {sd se : Shape}
+    (hd : fromStr t = .ok sd) (he : fromStr u = .ok se) :
+    ∃ s s', fromSources [t, u] = .ok s ∧ fromSources [u, t] = .ok s' ∧ meaningEq s s' := by
+  obtain ⟨s, s', h1, h2, h3⟩ := sources_comm (inferDoc_of_reads ht hd) (inferDoc_of_reads hu he)
+  exact ⟨s, s', (fromSources_pair_reads ht hu s).2 h1, (fromSources_pair_reads hu ht s').2 h2, h3⟩
+
+/-- **C09 on texts**: once a text is among the sources, feeding it again any number of times keeps
+the meaning of the shape, and the shape itself is stable from the first repetition on -/
+theorem converge_text (ps : List (List Char × Doc)) (h : ∀ p ∈ ps, Reads p.1 p.2) (p : List Char × Doc) (hp : p ∈ ps)
+    (a : Shape) (ha : fromSources (ps.map (·.1)) = .ok a) :
+    ∀ k, ∃ sk, fromSources (ps.map (·.1) ++ List.replicate k p.1) = .ok sk ∧ meaningEq sk a ∧
+      (1 ≤ k → fromSources (ps.map (·.1) ++ List.replicate (k + 1) p.1) = .ok sk) := by
+  intro k
+  have hdoc := (fromSources_reads ps h a).1 ha
+  obtain ⟨sk, h1, h2, h3⟩ := converge (ps.map (·.2)) p.2 a (List.mem_map.2 ⟨p, hp, rfl⟩) hdoc k
+  have hall : ∀ n, ∀ q ∈ ps ++ List.replicate n p, Reads q.1 q.2 := by
+    intro n q hq
+    rcases List.mem_append.1 hq with hq | hq
+    · exact h q hq
+    · rw [(List.mem_replicate.1 hq).2]; exact h p hp
+  have e1 : ∀ n, (ps ++ List.replicate n p).map (·.1) = ps.map (·.1) ++ List.replicate n p.1 := by
+    intro n; simp
+  have e2 : ∀ n, (ps ++ List.replicate n p).map (·.2) = ps.map (·.2) ++ List.replicate n p.2 := by
+    intro n; simp
+  refine ⟨sk, ?_, h2, ?_⟩
+  · have := (fromSources_reads (ps ++ List.replicate k p) (hall k) sk).2 (by rw [e2]; exact h1)
+    rwa [e1] at this
+  · intro hk
+    have := (fromSources_reads (ps ++ List.replicate (k + 1) p) (hall (k + 1)) sk).2 (by rw [e2]; exact h3 hk)
+    rwa [e1] at this
 
 end ShapeVerif
